@@ -233,7 +233,7 @@ Qed.
 
 Theorem ua_round_trip v variable : ua_canonical v = true ->
   t_parse tag_UnstructuredAddenda = [PGuard CLt 10; PTag false; PAddenda 0 1] ->
-  t_format tag_UnstructuredAddenda = [FTag; FAlpha 0 4; FAddenda 0 1] ->
+  t_format tag_UnstructuredAddenda = [FTag; FAlphaZ 0 4; FAddenda 0 1] ->
   length (t_elems tag_UnstructuredAddenda) = 2 ->
   exists txt, format_tag tag_UnstructuredAddenda variable v = Some txt /\ parse_tag tag_UnstructuredAddenda txt = POk v.
 Proof.
@@ -252,6 +252,7 @@ Proof.
   { unfold ascii_str. rewrite forallb_forall in *. intros b Hb. specialize (Hma b Hb). unfold is_ascii. exact Hma. }
   unfold format_tag, parse_tag. rewrite Hf, Hp. cbn [run_format app elem_val tv_elems tv_marker nth]. fold al.
   change (nn 4) with 4.
+  replace ((0 <? length len) && (length len <? 4)) with false by (rewrite Hl4; reflexivity).
   unfold alpha_field at 1. rewrite (format_alpha_fixed len 4) by (try lia; unfold small; cbn; lia).
   assert (Hpl : pad 4 len = len) by (unfold pad; rewrite Hl4; cbn; apply app_nil_r). rewrite Hpl.
   set (n := Z.to_nat al) in *.
